@@ -27,6 +27,7 @@ import (
 	fail "github.com/ebuchman/fail-test"
 	"github.com/kardiachain/go-kardia/configs"
 	"github.com/kardiachain/go-kardia/lib/common"
+	"github.com/kardiachain/go-kardia/lib/crypto"
 	"github.com/kardiachain/go-kardia/lib/log"
 	"github.com/kardiachain/go-kardia/types"
 
@@ -91,7 +92,7 @@ func (blockExec *BlockExecutor) SetEventBus(b *types.EventBus) {
 // Validation does not mutate state, but does require historical information from the stateDB,
 // ie. to verify evidence from a validator at an old height.
 func (blockExec *BlockExecutor) ValidateBlock(state LatestBlockState, block *types.Block) error {
-	hash := block.Hash()
+	hash := validationKey(block)
 	if _, ok := blockExec.cache[hash]; ok {
 		return nil
 	}
@@ -101,6 +102,18 @@ func (blockExec *BlockExecutor) ValidateBlock(state LatestBlockState, block *typ
 	}
 	blockExec.cache[hash] = struct{}{}
 	return nil
+}
+
+// validationKey identifies a block in the validation cache. Block.Hash covers only
+// the header, and the header commits to the last commit's signatures but not to its
+// height, round and block id (only VerifyCommit binds those), so they are part of the key.
+func validationKey(block *types.Block) common.Hash {
+	lc := block.LastCommit()
+	if lc == nil {
+		return block.Hash()
+	}
+	return crypto.Keccak256Hash(block.Hash().Bytes(),
+		[]byte(fmt.Sprintf("%d/%d/%s", lc.Height, lc.Round, lc.BlockID.Key())))
 }
 
 // ApplyBlock Validates the block against the state, and saves the new state.
